@@ -32,7 +32,8 @@ func (s Schema) Cell(table, column string, row int) (lit string, null bool) {
 // flex "all", every column that is not a key, not part of a foreign key, and not mentioned by a check
 // or a generated column holds, depending on (row + column position) % 4: its native tagged value, the
 // TEXT tag, the REAL tag or the BLOB tag — so an INT column holds text, reals and blobs. With flex
-// "any" only columns declared ANY do. quote() distinguishes the storage classes, so a value that is
+// "any" only columns declared ANY do (their TEXT value is numeric-looking: '0<n>.50'); flex "nullkey"
+// stores NULL in nullable key columns of rowid tables and nothing else unusual. quote() distinguishes the storage classes, so a value that is
 // cast or converted on the way is recognisable.
 func (s Schema) CellFlex(table, column string, row int, flex string) (lit string, null bool) {
 	return s.cell(table, column, row, 0, flex)
@@ -71,6 +72,11 @@ func (s Schema) cell(table, column string, row, depth int, flex string) (string,
 	if c.Null && (row+ci)%3 == 0 && !isKey {
 		return "NULL", true
 	}
+	// flex "nullkey": a nullable key column of a rowid table holds NULL in every third row (SQLite
+	// accepts that unless the column is the rowid alias) — rows a WITHOUT ROWID table would reject
+	if flex == "nullkey" && c.Null && t.InPK(column) && !t.WithoutRowID && !t.RowidAlias(column) && len(s.ReferencedBy(table, column, true)) == 0 && row%3 == 1 {
+		return "NULL", true
+	}
 	n := ((ti+1)*100+ci+1)*1000 + row + 1
 	tag := fmt.Sprintf("%s.%s.%d", table, column, row)
 	aff := Affinity(c.Type)
@@ -89,6 +95,11 @@ func (s Schema) cell(table, column string, row, depth int, flex string) (string,
 				aff = "BLOB"
 			}
 		}
+	}
+	if c.Type == "ANY" && flex != "" && aff == "TEXT" {
+		// text that is a well-formed number: a STRICT table stores it untouched in an ANY column, any
+		// detour through a column with NUMERIC affinity turns it into a number
+		return fmt.Sprintf("'0%d.50'", n), false
 	}
 	switch aff {
 	case "INTEGER":
